@@ -109,6 +109,7 @@ Bad ==
   \* its own true label even if something gave it a predecessor
   \cup b(\A i \in Nodes : FirstProto(i, N) \in proto => lab[i] = L[FirstProto(i, N)], <<"C01", "label_is_not_root_prototypes_label">>)
   \cup b(\A i \in Nodes : pred[i] # NIL => cost[i] = Max(cost[pred[i]], Wt(pred[i], i)), <<"C01", "cost_is_not_max_of_parent_cost_and_arc">>)
+  \cup b(\A i \in Nodes : pred[i] # i, <<"C01", "sample_is_its_own_predecessor">>)
   \cup b(Len(order) = N /\ SeqSet(order) = Nodes, <<"C01", "conquest_order_not_a_permutation">>)
   \cup b(\A j \in 1..(Len(order) - 1) : cost[order[j]] <= cost[order[j + 1]], <<"C01", "conquest_order_not_nondecreasing_in_cost">>)
   \cup b(C02Exists # "no", <<"C02", "prototypes_not_boundary_endpoints_of_any_mst">>)
